@@ -355,6 +355,7 @@ def runLine (cfg : Cfg) (line : String) : String × String :=
   | "fmt" :: args => runFmt cfg args
   | "fmt2" :: args => runFmt2 cfg args
   | "norm" :: args => runNorm cfg args
+  | "normx" :: args => runNormX cfg args
   | "dual" :: args => runDual cfg args
   | "dual2" :: args => runDual2 args
   | "ord" :: args => runOrd args
